@@ -416,6 +416,8 @@ def build_driver(md, traits=True, const_only=False):
                 L.append("      use(f.ElementCount()); use(f.SizeInBytes()); if (f.Ok() && f.ElementCount() > 0 && f[0].Ok()) { use(f[0].Read()); use(f.Equals(f)); }")
             elif cls == "sarray":
                 L.append("      use(f.ElementCount()); use(f.SizeInBytes()); if (f.Ok() && f.ElementCount() > 0) { use(f[0].Ok()); use(f[0].IsComplete()); use(f.Equals(f)); }")
+            elif cls == "vint_w":     # a virtual field that is writable by the language rule (alias or +/- chain of a writable field)
+                L.append("      if (f.Ok()) { use(f.Read()); use(f.UncheckedRead()); } use(f.CouldWriteValue(1)); use(f.TryToWrite(1)); f.UncheckedWrite(1);")
             elif cls in ("vint", "vbool", "venum"):
                 L.append("      if (f.Ok()) { use(f.Read()); use(f.UncheckedRead()); }")
             elif cls == "vconst":
@@ -795,6 +797,7 @@ BAD_FEATURES = ["enum-case-collision", "virtual-view-name-collision", "validator
 
 # shapes every run must contain (well-formed C++ on the unchanged tree); the second component asks the generator for it
 REQUIRED_SHAPES = [("enum-condition-constant-on-left", None), ("param-struct-field-argument-dynamic-location", None),
+                   ("dotted-virtual-readonly-target", None),
                    ("import-same-base-name", "import-same-base-name"), ("import-chain", "import-chain"),
                    ("import-diamond", "import-diamond"), ("import-punctuation", "import-punctuation")]
 
@@ -818,9 +821,9 @@ def generate(ctx, n_random, reserved, macros):
     # shapes that must be present in every run (well-formed C++ on the unchanged tree)
     shapes = list(REQUIRED_SHAPES)
     if not ctx.thorough():     # the two import shapes beyond the same-base-name one rotate in the quick tier
-        rest = shapes[3:]
+        rest = shapes[4:]
         ctx.rng.shuffle(rest)
-        shapes = shapes[:3] + rest[:1]
+        shapes = shapes[:4] + rest[:1]
     for feat, force in shapes:
         for attempt in range(150):
             m = gen_names.NamesModule(ctx.rng, reserved, macros, p_bad=0.0, force=force)
